@@ -70,12 +70,22 @@ class ConnTranslator(Translator):
             return "(count_params %s)" % a, NAT
         if ast.unparse(f) == "packets.make_column_definition_41":
             kw = {k.arg: ast.unparse(k.value) for k in n.keywords}
-            if n.args or kw != {"server_charset": "self.server_charset", "name": "'?'"}:
-                raise Untranslatable("column definition " + ast.unparse(n)[:80])
-            return "(param_coldef self.server_charset)", BYTES
+            if not n.args and kw == {"server_charset": "self.server_charset", "name": "'?'"}:
+                return "(param_coldef self.server_charset)", BYTES
+            # the definition of a result column: name, type and character set of that column, the connection's results set
+            col = kw.get("name", "").split(".")[0]
+            if not n.args and col in c.env and c.env[col] == NAT and kw == {"server_charset": "self.server_charset", "name": col + ".name",
+                                                                            "column_type": col + ".type", "character_set": col + ".character_set"}:
+                return "(coldef self.server_charset %s)" % col, BYTES
+            raise Untranslatable("column definition " + ast.unparse(n)[:80])
         if isinstance(f, ast.Attribute) and isinstance(f.value, ast.Name) and f.value.id == "packets" and ("packets." + f.attr) in self.fns:
             return self.call_fn(self.fns["packets." + f.attr], n.args, n.keywords, c, binds)
         return super().call(n, c, binds, want)
+
+    def truth(self, e, t):
+        if t == T_rec("ResultSet"):
+            return "(!(%s.columns).isEmpty)" % e          # ResultSet.__bool__ (checked by translate_handlers)
+        return super().truth(e, t)
 
     def generator_as_list(self, name, lean_name, self_type, elem=BYTES):
         """a generator method (`yield e` …) as the function that returns the list of what it yields, in order"""
@@ -186,6 +196,40 @@ class HandlerTranslator(ConnTranslator):
             c.env[key] = NAT
             c.env[tg.id] = fn.ret
             return self.wrap(binds, "let %s : Nat := %s\n%s" % (key, kx, self.m_bind_opt("%s self %s" % (fn.lean, key), tg.id, cont(c))))
+        # x = packets.parse_com_stmt_execute(…, get_stmt=self.get_stmt): the parser is a parameter here (it is translated and
+        # proved in ExecuteCode); x.stmt is the registry's object for x.stmt.stmt_id
+        if isinstance(tg, ast.Name) and isinstance(value, ast.Call) and ast.unparse(value.func) == "packets.parse_com_stmt_execute":
+            kw = {k.arg: ast.unparse(k.value) for k in value.keywords}
+            if value.args or kw != {"capabilities": "self.capabilities", "client_charset": "self.client_charset", "data": "data", "get_stmt": "self.get_stmt"}:
+                raise Untranslatable("parse_com_stmt_execute called with " + ast.unparse(value)[:100])
+            c.env[tg.id] = T_rec("ComStmtExecute")
+            c.field_aliases = dict(getattr(c, "field_aliases", {}))
+            c.field_aliases[tg.id] = "stmt"
+            return self.m_bind_opt("parse_execute self data", tg.id, cont(c))
+        # rs = await self.query(x.sql, x.query_attrs): the application's answer is a parameter; `none`: it raised
+        if isinstance(tg, ast.Name) and isinstance(value, ast.Call) and ast.unparse(value.func) == "self.query" and len(value.args) == 2 \
+                and isinstance(value.args[0], ast.Attribute) and isinstance(value.args[0].value, ast.Name) \
+                and c.env.get(value.args[0].value.id) == T_rec("ComStmtExecute") \
+                and ast.unparse(value.args[0]) == value.args[0].value.id + ".sql" and ast.unparse(value.args[1]) == value.args[0].value.id + ".query_attrs":
+            c.env[tg.id] = T_rec("ResultSet")
+            return self.m_bind_opt("app_query %s" % value.args[0].value.id, tg.id, cont(c))
+        # rows = gen_rows(): the nested generator that encodes the rows of the result (see block)
+        if isinstance(tg, ast.Name) and isinstance(value, ast.Call) and isinstance(value.func, ast.Name) \
+                and value.func.id in getattr(c, "row_generators", {}) and not value.args:
+            c.env[tg.id] = GEN
+            return "let %s : %s := %s.rows\n%s" % (tg.id, lean_type(GEN), c.row_generators[value.func.id], cont(c))
+        # x.stmt.f = v: a field of the registry's object reached through the record x
+        fa = getattr(c, "field_aliases", {})
+        if isinstance(tg, ast.Attribute) and isinstance(tg.value, ast.Attribute) and isinstance(tg.value.value, ast.Name) \
+                and fa.get(tg.value.value.id) == tg.value.attr:
+            x, fld = tg.value.value.id, tg.value.attr
+            ft = [f[1] for f in self.records["PreparedStatement"] if f[0] == tg.attr]
+            if not ft:
+                raise Untranslatable("field " + tg.attr)
+            binds, e, t = self.expr(value, c, ft[0])
+            return self.wrap(binds, "let %s := { %s with %s := { %s.%s with %s := %s } }\n"
+                             "let self := { self with %s := Mimic.Py.dictSet self.%s %s.%s.stmt_id %s.%s }\n%s" % (
+                                 x, x, fld, x, fld, tg.attr, self.coerce(e, t, ft[0]), self.REG, self.REG, x, fld, x, fld, cont(c)))
         # stmt.f = v on a reference: update the local copy, then the registry
         if isinstance(tg, ast.Attribute) and isinstance(tg.value, ast.Name) and tg.value.id in aliases:
             var = tg.value.id
@@ -269,9 +313,47 @@ class HandlerTranslator(ConnTranslator):
                 var, var, fld, bufs, kx, bufs, kx, vx, self.writeback(var, c), self.block(rest[1:], c, k))
             # `None.setdefault` would be an AttributeError
             return self.wrap(binds, "match %s.%s with\n| none => %s\n| some %s =>\n%s" % (var, fld, self.m_fail(), bufs, ind(body)))
+        # async def gen_rows(): async for r in cooperative_iterate(aiterate(rs.rows)): yield packets.make_binary_resultrow(r, rs.columns)
+        # — the lazily encoded rows of a result: `ResultSet.rows` stands for the packets this generator yields (what
+        # make_binary_resultrow does to one row is RowsCode's subject; an encoding error is a generator that raises there)
+        if isinstance(s, ast.AsyncFunctionDef) and not s.args.args and len(s.body) == 1 and isinstance(s.body[0], ast.AsyncFor):
+            lp = s.body[0]
+            it = strip_iter(lp.iter)
+            ok = (isinstance(it, ast.Attribute) and it.attr == "rows" and isinstance(it.value, ast.Name) and c.env.get(it.value.id) == T_rec("ResultSet")
+                  and isinstance(lp.target, ast.Name) and len(lp.body) == 1 and isinstance(lp.body[0], ast.Expr) and isinstance(lp.body[0].value, ast.Yield)
+                  and ast.unparse(lp.body[0].value.value) == "packets.make_binary_resultrow(%s, %s.columns)" % (lp.target.id, it.value.id))
+            if not ok:
+                raise Untranslatable("nested generator " + s.name)
+            c.row_generators = dict(getattr(c, "row_generators", {}))
+            c.row_generators[s.name] = it.value.id
+            return cont(c)
+        # if not rs: <terminating>   (ResultSet.__bool__)
+        if isinstance(s, ast.AsyncFor) and isinstance(s.iter, ast.Name) and c.env.get(s.iter.id) == GEN:
+            return self.async_for_local(s, c, cont)
         if isinstance(s, ast.AsyncFor):
             return self.async_for(s, c, cont)
         # for packet in <list of packets>: await self.stream.write(packet, drain=…)
+        if isinstance(s, ast.For) and not s.orelse and isinstance(s.target, ast.Name) and len(s.body) == 1 \
+                and isinstance(s.body[0], ast.Expr) and isinstance(s.body[0].value, ast.Await) and isinstance(s.body[0].value.value, ast.Call) \
+                and ast.unparse(s.body[0].value.value.func) == "self.stream.write" and len(s.body[0].value.value.args) == 1 \
+                and ast.unparse(s.body[0].value.value.args[0]) != s.target.id:
+            # for x in xs: await self.stream.write(F(x)[, drain=…]) with an effect-free F
+            call = s.body[0].value.value
+            drain = "true"
+            for kw in call.keywords:
+                if kw.arg == "drain" and isinstance(kw.value, ast.Constant) and isinstance(kw.value.value, bool):
+                    drain = "true" if kw.value.value else "false"
+                else:
+                    raise Untranslatable("stream.write keyword " + ast.unparse(kw))
+            binds, e, t = self.expr(s.iter, c)
+            if t[0] != "list":
+                raise Untranslatable("for over " + lean_type(t))
+            cb = c.copy()
+            cb.env[s.target.id] = t[1]
+            b2, fe, ft = self.expr(call.args[0], cb, BYTES)
+            if b2 or ft != BYTES:
+                raise Untranslatable("the packet written in the loop may raise: " + ast.unparse(call.args[0])[:60])
+            return self.wrap(binds, "let self := { self with out := self.out ++ (%s).map (fun %s => Ev.write %s %s) }\n%s" % (e, s.target.id, fe, drain, cont(c)))
         if isinstance(s, ast.For) and not s.orelse and isinstance(s.target, ast.Name) and len(s.body) == 1 \
                 and isinstance(s.body[0], ast.Expr) and isinstance(s.body[0].value, ast.Await) and isinstance(s.body[0].value.value, ast.Call) \
                 and ast.unparse(s.body[0].value.value.func) == "self.stream.write" and len(s.body[0].value.value.args) == 1 \
@@ -339,10 +421,46 @@ class HandlerTranslator(ConnTranslator):
                 + ind("match %s with\n| .error e => .error e\n| .ok (Mimic.Py.Step.ret %s) => %s\n| .ok (Mimic.Py.Step.next _) => %s\n| .ok (Mimic.Py.Step.brk %s) =>\n%s"
                       % (loop, "a" if has_ret else "_", ret_arm, self.m_fail(), opat, ind(cont(c3)))))
 
+    def async_for_local(self, s, c, cont):
+        """`async for x in g: body` over a generator held in a local variable that is not used afterwards"""
+        if s.orelse or not isinstance(s.target, ast.Name):
+            raise Untranslatable("async for … else / target")
+        g, x = s.iter.id, s.target.id
+        names = [nm for nm in self.assigned([s], c) if nm in c.env and nm not in (x, g)]
+        if "self" not in names:
+            names.append("self")
+        before = {nm: c.env[nm] for nm in names}
+        sty = self.state_type(names, before, False)
+        rett = lean_type(c.env["self"])
+
+        def pack(c2):
+            items = [self.coerce(nm, c2.env[nm], before[nm]) for nm in names]
+            return items[0] if len(items) == 1 else "(" + ", ".join(items) + ")"
+        spat = self.state(names, c, False)
+        cb = c.copy()
+        cb.env[x] = GEN[1]
+        cb.in_loop = True
+        cb.brk = lambda c2: "Except.ok (Mimic.Py.Step.brk %s)" % pack(c2)
+        body = self.block(list(s.body), cb, lambda c2: "Except.ok (Mimic.Py.Step.next %s)" % pack(c2))
+        bound = set(names) | {x}
+        item = self.lift(c, "item", [x, spat], body, "%s → %s → Except %s (Step %s %s)" % (lean_type(GEN[1]), sty, rett, sty, rett), bound)
+        err = self.lift(c, "err", [spat], "self", "%s → %s" % (sty, rett), bound)
+        c3 = c.copy()
+        c3.env.pop(g, None)      # the generator object is consumed by the loop
+        opat = self.state(names, c3, False)
+        has_ret = any(isinstance(n, ast.Return) for st in s.body for n in ast.walk(st))
+        loop = "Mimic.Py.Gen.iterE (σ := %s) (ρ := %s) (fun _ st => st) %s %s %s.rows %s.boom %s" % (sty, rett, err, item, g, g, self.state(names, c, False))
+        return ("match %s with\n| .error e => .error e\n| .ok (Mimic.Py.Step.ret %s) => %s\n| .ok (Mimic.Py.Step.next _) => %s\n| .ok (Mimic.Py.Step.brk %s) =>\n%s"
+                % (loop, "a" if has_ret else "_", ".ok a" if has_ret else self.m_fail(), self.m_fail(), opat, ind(cont(c3))))
+
     # ------------------------------------------------------------ functions
     def handler(self, name, lean_name):
         conn = T_rec("Connection")
-        text = self.function(name, lean_name, self_type=conn, ret=("unit",), mutating=True)
+        self.force_partial = True       # a handler is always in the exception monad, also when nothing in it can raise
+        try:
+            text = self.function(name, lean_name, self_type=conn, ret=("unit",), mutating=True)
+        finally:
+            self.force_partial = False
         text = text.replace(": Option (Connection S) :=", ": Except (Connection S) (Connection S) :=")
         self.out[-1] = text
         return text
@@ -399,6 +517,11 @@ def translate_handlers():
         "Connection": [("capabilities", NAT, None), ("status_flags", NAT, None), ("prepared_stmts", T_dict(NAT, T_rec("PreparedStatement")), None),
                        ("out", ("abs", "(List Ev)"), None), ("prepared_stmt_seq", T_rec("seq"), None), ("client_charset", CS, None),
                        ("server_charset", CS, None)],
+        # COM_STMT_EXECUTE as the handler uses it: the statement object, the interpolated text, the cursor flag (the
+        # attributes only travel to the application)
+        "ComStmtExecute": [("sql", STR, None), ("stmt", T_rec("PreparedStatement"), None), ("use_cursor", BOOL, None)],
+        # a result set as the handler uses it: columns are opaque identifiers, `rows` the packets its rows encode to
+        "ResultSet": [("columns", T_list(NAT), None), ("rows", GEN, None)],
         "ComStmtSendLongData": dataclass_fields(P.ComStmtSendLongData),
         "ComStmtFetch": dataclass_fields(P.ComStmtFetch),
         "ComStmtReset": dataclass_fields(P.ComStmtReset),
@@ -425,7 +548,15 @@ def translate_handlers():
     pure = ConnTranslator(Cn, enums, records)
     pure.flags = {"Capabilities", "ServerStatus"}
     pure.fns.update(lib_fns())
-    pure.extra_params = [("count_params", "S → Nat"), ("param_coldef", "Nat → Bytes")]
+    pure.extra_params = [("count_params", "S → Nat"), ("param_coldef", "Nat → Bytes"), ("coldef", "Nat → Nat → Bytes"),
+                         ("parse_execute", "Connection S → Bytes → Option (ComStmtExecute S)"), ("app_query", "ComStmtExecute S → Option (ResultSet S)")]
+    from mysql_mimic import results as R
+    if "def __bool__(self) -> bool:\n        return bool(self.columns)" not in inspect.getsource(R.ResultSet):
+        raise Untranslatable("ResultSet.__bool__ is no longer bool(self.columns)")
+    qsrc = inspect.getsource(Cn.Connection.query)
+    if "await ensure_result_set(" not in qsrc or "await self.session.handle_query(sql, query_attrs)" not in qsrc:
+        raise Untranslatable("Connection.query no longer returns ensure_result_set(session.handle_query(sql, query_attrs))")
+    pure.fns["types.uint_len"] = pure.fns["uint_len"]
     conn = T_rec("Connection")
     tu = Translator(U, {}, records)
     out.append(tu.record_decl("seq"))
@@ -433,6 +564,8 @@ def translate_handlers():
     pure.fns.update(tu.fns)
     out.append(pure.record_decl("PreparedStatement"))
     out.append(pure.record_decl("Connection"))
+    out.append(pure.record_decl("ComStmtExecute"))
+    out.append(pure.record_decl("ResultSet"))
     out.append("/-- `Connection._MAX_PREPARED_STMT_ID`, the size of the statement-id sequence -/\ndef maxPreparedStmtId : Nat := %d\n" % Cn.Connection._MAX_PREPARED_STMT_ID)
     tp = Translator(P, enums, records)
     tp.fns.update(lib_fns())
@@ -455,12 +588,12 @@ def translate_handlers():
         fn.partial = True
         pure.fns["packets." + nm] = fn
     out.append(pure.generator_as_list("Connection.com_stmt_prepare_response", "com_stmt_prepare_response", conn))
-    for nm, ln in (("handle_stmt_prepare", "handle_stmt_prepare"), ("handle_stmt_fetch", "handle_stmt_fetch"), ("handle_stmt_reset", "handle_stmt_reset"), ("handle_stmt_close", "handle_stmt_close"),
+    for nm, ln in (("handle_stmt_prepare", "handle_stmt_prepare"), ("handle_stmt_execute", "handle_stmt_execute"), ("handle_stmt_fetch", "handle_stmt_fetch"), ("handle_stmt_reset", "handle_stmt_reset"), ("handle_stmt_close", "handle_stmt_close"),
                    ("handle_stmt_send_long_data", "handle_stmt_send_long_data")):
         out.append(h.handler("Connection." + nm, ln))
     out.append("def translated : List String := [%s]" % ", ".join('"%s"' % n for n in (
         "Connection.ok", "Connection.eof", "Connection.deprecate_eof", "Connection.ok_or_eof", "Connection.get_stmt",
-        "Connection.com_stmt_prepare_response", "Connection.handle_stmt_prepare", "Connection.handle_stmt_fetch", "Connection.handle_stmt_reset", "Connection.handle_stmt_close", "Connection.handle_stmt_send_long_data")))
+        "Connection.com_stmt_prepare_response", "Connection.handle_stmt_prepare", "Connection.handle_stmt_execute", "Connection.handle_stmt_fetch", "Connection.handle_stmt_reset", "Connection.handle_stmt_close", "Connection.handle_stmt_send_long_data")))
     out.append("end Mimic.Extracted.HandlersCode")
     return "\n".join(out) + "\n"
 
